@@ -9,6 +9,7 @@ CONSTANTS
   ParamSeq <- ParamsFull
   DeclSeq <- DeclsFull
   MaxParams = 2
+  MinSize = 0
   Bug = "none"
 INVARIANT CallSolutionSatisfies
 INVARIANT CallUnsatIsDiagnosed
